@@ -2,7 +2,7 @@
    initial state by some sequence of events (any number of submitters, helper goroutines and controller calls, in any
    interleaving the code's synchronisation admits); k says what each queued closure is. *)
 From GN Require Import Common.Base Common.Int64 Model.Loop Model.LoopSrc Model.LoopTime Gen.LoopSkeleton
-  Proofs.LoopFrame Proofs.LoopCtl Proofs.LoopTimers Proofs.LoopInv Proofs.LoopProps Proofs.LoopTime.
+  Proofs.LoopFrame Proofs.LoopCtl Proofs.LoopTimers Proofs.LoopInv Proofs.LoopProps Proofs.LoopTime Cases.LoopCheck Proofs.LoopReplay.
 Open Scope Z_scope.
 
 (* callbacks are executed only by the thread inside run() or by Terminate; the two never coexist, and while Terminate is
@@ -45,3 +45,9 @@ Print Assumptions C03_source_tie.
 Theorem C03_reach_nonvacuous : forall k, reach k init_after_setup.
 Proof. exact setup_reach. Qed.
 Print Assumptions C03_reach_nonvacuous.
+
+(* a controlled execution of the real loop whose log replays without difference ends in a reachable state of the model:
+   the theorems above apply to the executions the harness observes *)
+Theorem C03_checker_sound : forall k l s m, replay k init_after_setup mon0 l 0 = (s, m) -> m_diff m = None -> reach k s.
+Proof. exact replayed_state_reachable. Qed.
+Print Assumptions C03_checker_sound.
